@@ -25,6 +25,7 @@ RULE = (
     "gateway: UnsupportedMessageError iff outside the spec table spelled in the harness. Non-trivial = 3/4-component version, or history "
     "with >=2 different reports or a rejected report after an accepted one, or a gate probe within 1 of a table edge."
     ' Round 5: a `probe` op asks the same gateway about the same types repeatedly while its version changes (enumerated for all version pairs).'
+    ' Round 6: cases also run with the library at DEBUG (memoised version resolutions forgotten first); `read_error` events (version and rules must survive a failed read).'
 )
 ASSUMPTIONS = [
     "spec tables: internal 0-14 (1.4), 0-17 (1.5), 0-28 (2.0, 2.1), 0-33 (2.2); stream 0-5",
